@@ -161,6 +161,13 @@ def oracle(inp):
       e = alpha * phi(cls, r(z[a], z[b])) + (noise[a] if a == b else 0.0)
       if abs(sym[a, b] - e) > tol * (alpha + noise[a]):
         return fail("symmetric-matrix entry differs from alpha*phi(r) + noise on the diagonal", float(sym[a, b]), e)
+  # a noise variance common to all points, given as a Python scalar or a length-1 array, is added to the diagonal only as well
+  for form in ("scalar", "len1"):
+    s0 = float(noise[0]) if len(noise) else 0.0
+    symc = k.build_kernel_matrix(z, noise_variance=(s0 if form == "scalar" else numpy.array([s0])))
+    base = k.build_kernel_matrix(z)
+    if numpy.abs(symc - (base + s0 * numpy.eye(len(z)))).max() > tol * (alpha + s0):
+      return fail(f"common noise variance ({form}) is not added on the diagonal only", float(numpy.abs(symc - base - s0 * numpy.eye(len(z))).max()), 0.0)
   if abs(float(k.covariance(x[:1], x[:1])[0]) - alpha) > tol * alpha:
     return fail("k(x,x) != alpha", float(k.covariance(x[:1], x[:1])[0]), alpha)
   if n and abs(float(k.covariance(x[:n], z[:n])[0]) - float(k.covariance(z[:n], x[:n])[0])) > tol * alpha:
